@@ -226,6 +226,9 @@ func zmodelPath() (string, error) {
 
 // SpecSchemas asks zmodel for the specification schema of every (type, cfg) pair. The first request is the
 // `keys` handshake, so that a drift between the harness's and the model's configuration key order is an error.
+// RawSchemas: the s-expressions as answered by zmodel (to tell whether two configurations give a type the same schema)
+var RawSchemas = map[string]string{}
+
 func SpecSchemas(names []string, cfgs []string) (map[string]*Ty, error) {
 	zp, err := zmodelPath()
 	if err != nil {
@@ -264,6 +267,7 @@ func SpecSchemas(names []string, cfgs []string) (map[string]*Ty, error) {
 				return nil, err
 			}
 			out[n+" "+c] = t
+			RawSchemas[n+" "+c] = line
 		}
 	}
 	return out, nil
